@@ -9,6 +9,7 @@
   qmail-local(8), qmail-command(8)) written independently; compiled, it is the oracle of the check.
 -/
 import Nq.Lemmas.Local
+import Nq.Lemmas.LocalOutcome
 
 namespace Nq.Props.C13
 open Nq Nq.Local Nq.Gen.LocalExit Nq.Lemmas.Local
@@ -71,6 +72,33 @@ theorem C13_confined_nodotdot (dash ext : Bytes) (hd : DOT ∉ dash) (c : Cand)
   rw [e, List.append_assoc]
   exact confined_of_no_dot (dash ++ s) (fun h => by rcases List.mem_append.1 h with h | h; exact hd h; exact hs h)
 
+/-- **Confinement of a whole run.** Every name `main()` opens while searching for the control file *and* every name it
+gives to `stat` for the `-owner` / `-owner-default` test (these are built from the same lower-cased, dot-free extension)
+begins with ".qmail" and contains no "..". `tried` and `stats` are compared with the names the implementation passes
+to `open_read` and `stat` on every generated case. -/
+theorem C13_run_confined (a : Args) (w : World) (hd : DOT ∉ a.dash) :
+    (∀ n ∈ (run a w).tried, LocalSpec.confined n = true) ∧ (∀ n ∈ (run a w).stats, LocalSpec.confined n = true) := by
+  obtain ⟨ht, hs⟩ := run_tried_stats a w
+  constructor
+  · intro n hn
+    rcases ht with h | h
+    · rw [h] at hn; simp at hn
+    · rw [h] at hn
+      obtain ⟨c, hc, e⟩ := qmeTried_sub _ _ _ hn
+      rw [← e]; exact C13_confined_nodotdot a.dash a.ext hd c hc
+  · intro n hn
+    rcases hs with h | h
+    · rw [h] at hn; simp at hn
+    · rw [h] at hn; exact ueoStats_confined a.dash a.ext a.sender w.ex hd n hn
+
+/-- the names examined for the owner test are the documented ones (`LocalSpec.ownerNames`), and the envelope sender
+depends on the home directory through these names only -/
+theorem C13_owner_names (a : Args) (w : World) (hm : Nat) (ex' : Bytes → Option Bool) :
+    ueoStats a.dash (safeext a.ext) a.sender w.ex = LocalSpec.ownerNames (settingOf a w hm) ∧
+    ((∀ n ∈ ueoStats a.dash (safeext a.ext) a.sender w.ex, ex' n = w.ex n) →
+      ueoOf a.loc a.dash (safeext a.ext) a.host a.sender ex' = ueoOf a.loc a.dash (safeext a.ext) a.host a.sender w.ex) :=
+  ⟨(ownerNames_eq a w hm).symm, ueoOf_congr a.loc a.dash (safeext a.ext) a.host a.sender w.ex ex'⟩
+
 /-- **$DEFAULT** (qmail-command(8)): for whichever candidate is selected, the variable is set iff the file name
 ends in "default", to the part of the original (not lower-cased) extension that the word stands for. -/
 theorem C13_default_env (dash ext : Bytes) (c : Cand) (hc : c ∈ qmeCandidates dash (safeext ext)) :
@@ -87,16 +115,18 @@ theorem C13_nofile (a : Args) (w : World) (hh : HomeOK a w) (hn : NoLoop a)
 theorem C13_nofile_default (a : Args) (w : World) (hh : HomeOK a w) (hn : NoLoop a)
     (hs : qmeSelect w.fs (qmeCandidates a.dash (safeext a.ext)) = .nofile) (hd : a.dash = []) (u : Bytes)
     (hu : ueoOf a.loc a.dash (safeext a.ext) a.host a.sender w.ex = .ok u) :
-    ∃ r0, run a w = deliver a w a.aliasempty false r0 ∧ r0.ueo = some u :=
-  run_nofile_nodash a w hh hn hs hd u hu
+    ∃ r0, run a w = deliver a w a.aliasempty false r0 ∧ r0.ueo = some u ∧ Fresh r0 :=
+  run_nofile_nodash' a w hh hn hs hd u hu
 
-/-- a selected file is followed (with the x-bit restriction); a 0-byte file means the default instructions -/
+/-- a selected file is followed (with the x-bit restriction); a 0-byte file means the default instructions. The record
+`r0` the loop starts from is fresh (`Fresh`: exit code 0, no diagnostic, nothing done yet), so the exit code of the
+run is the one `C13_exit_code` gives with `r.code = 0`. -/
 theorem C13_found (a : Args) (w : World) (hh : HomeOK a w) (hn : NoLoop a) (c : Cand) (mode : Nat) (content u : Bytes)
     (hs : qmeSelect w.fs (qmeCandidates a.dash (safeext a.ext)) = .found c mode content)
     (hu : ueoOf a.loc a.dash (safeext a.ext) a.host a.sender w.ex = .ok u) :
-    ∃ r0, r0.ueo = some u ∧ r0.sel = some c ∧
+    ∃ r0, r0.ueo = some u ∧ r0.sel = some c ∧ Fresh r0 ∧
       run a w = if content = [] then deliver a w a.aliasempty false r0 else deliver a w content (mode &&& xBit ≠ 0) r0 :=
-  run_found a w hh hn c mode content u hs hu
+  run_found' a w hh hn c mode content u hs hu
 
 /-! ### Permissions -/
 
@@ -107,8 +137,11 @@ theorem C13_perm_home (a : Args) (w : World) (m : Nat) (hm : w.home = some m) (h
 
 /-- a sticky home directory: defer (111) when delivering -/
 theorem C13_perm_sticky (a : Args) (w : World) (m : Nat) (hm : w.home = some m) (hs : m &&& stickyBit ≠ 0)
-    (hd : a.doit = true) : Refused (run a w) 111 :=
-  run_home_sticky a w m hm hs hd
+    (hd : a.doit = true) : Refused (run a w) 111 ∧ (run a w).tried = [] ∧ (run a w).stats = [] := by
+  refine ⟨run_home_sticky a w m hm hs hd, ?_⟩
+  by_cases hw : m &&& patrn = 0
+  · simp [run, checkhome, hm, hw, hs, hd]
+  · simp [run, checkhome, hm, hw]
 
 /-- a control file writable by others: defer (111), nothing delivered — even if a later candidate is fine -/
 theorem C13_perm_file (a : Args) (w : World) (hh : HomeOK a w) (hn : NoLoop a) (pre post : List Cand) (c : Cand)
@@ -142,6 +175,24 @@ theorem C13_xbit_refuses (px : Bytes → PRes) (dx : Instr → Option Why) (pre 
     (hfirst : ∀ l ∈ pre.head?, classify l ≠ .blank) (hc : classify raw = .act i) (hi : isForward i = false) :
     (dispatch px dx true true (pre ++ raw :: post)).fin = .die (if isProgram i then .xbitProg else .xbitFile) :=
   dispatch_forwardonly_refuses px dx pre raw post true i hpre (fun _ => hfirst) hc hi
+
+/-- **`+list` anywhere.** The same for a file that becomes forward-only in the middle: if the loop ran through the lines
+`pre` and the state after them is forward-only (x bit, or `+list` among them), then whatever follows, only forward
+lines are acted upon after `pre`… -/
+theorem C13_list_forwardonly (px : Bytes → PRes) (dx : Instr → Option Why) (pre rest : List Bytes) (first fo : Bool)
+    (hpre : (dispatch px dx first fo pre).fin = .done) (hfo : foAfter fo pre = true) :
+    ∃ d, (dispatch px dx first fo (pre ++ rest)).did = instrsOf pre ++ d ∧ ∀ i ∈ d, isForward i = true :=
+  dispatch_after_list px dx pre rest first fo hpre hfo
+
+/-- …and a file or program line directly after `pre` ends the run with the x-bit diagnostic; neither it nor anything
+after it is acted upon (this is `C13_xbit_refuses` without the restriction that the state is forward-only from the
+first line and that the lines before are forward lines) -/
+theorem C13_list_refuses (px : Bytes → PRes) (dx : Instr → Option Why) (pre : List Bytes) (raw : Bytes)
+    (post : List Bytes) (first fo : Bool) (i : Instr)
+    (hpre : (dispatch px dx first fo pre).fin = .done) (hfo : foAfter fo pre = true)
+    (hc : classify raw = .act i) (hi : isForward i = false) :
+    dispatch px dx first fo (pre ++ raw :: post) = ⟨instrsOf pre, .die (if isProgram i then .xbitProg else .xbitFile)⟩ :=
+  dispatch_after_list_refuses px dx pre raw post first fo i hpre hfo hc hi
 
 /-- for `main()` as a whole: an executable, non-empty control file never causes a file or program delivery -/
 theorem C13_xbit_run (a : Args) (w : World) (c : Cand) (mode : Nat) (content : Bytes)
@@ -181,22 +232,84 @@ theorem C13_dispatch_complete (px : Bytes → PRes) (dx : Instr → Option Why) 
     (h : (dispatch px dx first fo lines).fin = .done) : (dispatch px dx first fo lines).did = instrsOf lines :=
   dispatch_done px dx lines first fo h
 
-/-- **Exit code 99.** The loop stops right after that command: acted upon are exactly the instructions before it
-(so earlier forward lines are kept) and the command itself; nothing of the later lines. -/
+/-- **The loop stops at the first line that does not run through.** If the loop does not reach the end of the file
+there is a first such line `raw`: the loop ran through all lines before it (`.done`, so by `C13_dispatch_all_ok` every
+instruction among them succeeded), what was acted upon is their instructions followed by what `raw` alone does in the
+state they leave (not first line any more; forward-only if it was or if `+list` occurred), and the way the loop ends
+is the way that single line ends. Nothing after `raw` is looked at. -/
+theorem C13_dispatch_first_stop (px : Bytes → PRes) (dx : Instr → Option Why) (lines : List Bytes) (first fo : Bool)
+    (h : (dispatch px dx first fo lines).fin ≠ .done) :
+    ∃ pre raw post, lines = pre ++ raw :: post ∧ (dispatch px dx first fo pre).fin = .done ∧
+      (dispatch px dx (first && pre.isEmpty) (foAfter fo pre) [raw]).fin = (dispatch px dx first fo lines).fin ∧
+      (dispatch px dx first fo lines).did =
+        instrsOf pre ++ (dispatch px dx (first && pre.isEmpty) (foAfter fo pre) [raw]).did :=
+  dispatch_split px dx lines first fo h
+
+/-- **Every instruction acted upon succeeded** unless the loop ended in a failure (then all but the last did, by
+`C13_dispatch_failure`): commands ran and exited with a code of the continue / stop class, file deliveries reported
+no failure. -/
+theorem C13_dispatch_all_ok (px : Bytes → PRes) (dx : Instr → Option Why) (lines : List Bytes) (first fo : Bool)
+    (h : (dispatch px dx first fo lines).fin.isDie = false) :
+    ∀ i ∈ (dispatch px dx first fo lines).did, Succeeded px dx i :=
+  dispatch_all_ok px dx lines first fo h
+
+/-- **Exit code 99.** The loop stops right after that command: the lines before it all ran through (their
+instructions succeeded; earlier forward lines are kept), the state was not forward-only, acted upon are exactly the
+instructions before the command and the command itself; nothing of the later lines.
+(Replaces the earlier statement, which did not say that the lines before the command had succeeded.) -/
 theorem C13_dispatch_99 (px : Bytes → PRes) (dx : Instr → Option Why) (lines : List Bytes) (first fo : Bool)
     (h : (dispatch px dx first fo lines).fin = .stop99) :
-    ∃ pre raw post c code, lines = pre ++ raw :: post ∧ classify raw = .act (.program c) ∧
+    ∃ pre raw post c code, lines = pre ++ raw :: post ∧ (dispatch px dx first fo pre).fin = .done ∧
+      foAfter fo pre = false ∧ classify raw = .act (.program c) ∧
       px (cstr c) = .exited code ∧ progClass code = .stop99 ∧
-      (dispatch px dx first fo lines).did = instrsOf pre ++ [.program c] :=
-  dispatch_stop99 px dx lines first fo h
+      (dispatch px dx first fo lines).did = instrsOf pre ++ [.program c] ∧
+      ∀ i ∈ instrsOf pre, Succeeded px dx i := by
+  obtain ⟨pre, raw, post, e1, e2, e3, e4⟩ := dispatch_split px dx lines first fo (by rw [h]; simp)
+  rw [h] at e3
+  obtain ⟨c, code, hc, hfo, hp, hk, hd⟩ := line_stop99 px dx raw _ _ e3
+  refine ⟨pre, raw, post, c, code, e1, e2, hfo, hc, hp, hk, by rw [e4, hd], ?_⟩
+  intro i hi
+  have := dispatch_all_ok px dx pre first fo (by rw [e2]; rfl) i
+  rw [dispatch_done px dx pre first fo e2] at this
+  exact this hi
 
-/-- **Failure.** A failing instruction ends the loop: nothing of the later lines is acted upon. -/
+/-- **Failure.** A failing line ends the loop. There is a first failing line `raw`; all lines before it ran through
+(and their instructions succeeded); the diagnostic `y` and what was acted upon are tied to that line, in exactly one
+of four ways: (1) `raw` is blank and is the very first line; (2) `raw` is a file or program line met in forward-only
+state — it is *not* acted upon; (3) `raw` is a command that crashed or exited with a code of a failing class — acted
+upon, last; (4) `raw` is a file delivery that failed with `y` — acted upon, last. Nothing after `raw`.
+(Replaces the earlier statement, in which `y` did not occur and the failing line was not identified: the trace
+did = [a, b, c] for `|a,|b,|c` with `a` failing satisfied it.) -/
 theorem C13_dispatch_failure (px : Bytes → PRes) (dx : Instr → Option Why) (lines : List Bytes) (first fo : Bool) (y : Why)
     (h : (dispatch px dx first fo lines).fin = .die y) :
-    ∃ pre raw post, lines = pre ++ raw :: post ∧
-      ((dispatch px dx first fo lines).did = instrsOf pre ∨
-        ∃ i, classify raw = .act i ∧ isForward i = false ∧ (dispatch px dx first fo lines).did = instrsOf pre ++ [i]) :=
-  dispatch_die px dx lines first fo y h
+    ∃ pre raw post, lines = pre ++ raw :: post ∧ (dispatch px dx first fo pre).fin = .done ∧
+      (∀ i ∈ instrsOf pre, Succeeded px dx i) ∧
+      ((classify raw = .blank ∧ first = true ∧ pre = [] ∧ y = .blankFirst ∧ (dispatch px dx first fo lines).did = []) ∨
+       (∃ i, classify raw = .act i ∧ isForward i = false ∧ foAfter fo pre = true ∧
+          y = (if isProgram i then .xbitProg else .xbitFile) ∧ (dispatch px dx first fo lines).did = instrsOf pre) ∨
+       (∃ c, classify raw = .act (.program c) ∧ foAfter fo pre = false ∧
+          ((px (cstr c) = .crashed ∧ y = .childCrashed) ∨
+           (∃ code e, px (cstr c) = .exited code ∧ progClass code = .exit e ∧ y = .progExit e)) ∧
+          (dispatch px dx first fo lines).did = instrsOf pre ++ [.program c]) ∨
+       (∃ i, classify raw = .act i ∧ isFile i = true ∧ foAfter fo pre = false ∧ dx i = some y ∧
+          (dispatch px dx first fo lines).did = instrsOf pre ++ [i])) := by
+  obtain ⟨pre, raw, post, e1, e2, e3, e4⟩ := dispatch_split px dx lines first fo (by rw [h]; simp)
+  rw [h] at e3
+  have hok : ∀ i ∈ instrsOf pre, Succeeded px dx i := by
+    intro i hi
+    have := dispatch_all_ok px dx pre first fo (by rw [e2]; rfl) i
+    rw [dispatch_done px dx pre first fo e2] at this
+    exact this hi
+  refine ⟨pre, raw, post, e1, e2, hok, ?_⟩
+  rcases line_die px dx raw _ _ y e3 with ⟨h1, h2, h3, h4⟩ | ⟨i, h1, h2, h3, h4, h5⟩ | ⟨c, h1, h2, h3, h4⟩ | ⟨i, h1, h2, h3, h4, h5⟩
+  · left
+    have hf : first = true ∧ pre.isEmpty = true := by simpa using h2
+    have hp : pre = [] := by simpa using hf.2
+    refine ⟨h1, hf.1, hp, h3, ?_⟩
+    rw [e4, h4, hp]; simp [instrsOf]
+  · right; left; exact ⟨i, h1, h2, h3, h4, by rw [e4, h5]; simp⟩
+  · right; right; left; exact ⟨c, h1, h2, h3, by rw [e4, h4]⟩
+  · right; right; right; exact ⟨i, h1, h2, h3, h4, by rw [e4, h5]⟩
 
 /-- **Lines.** The instruction text is cut into lines as documented: every LF ends a line, a missing final LF is
 supplied, and a final LF does not start another (blank) line — for every byte string. Hence the trace of
@@ -210,8 +323,8 @@ over the lines: stop at the first failure or exit 99, refuse file/program lines 
 forward addresses) agree on the instructions acted upon, the deliveries made (in order), the addresses
 collected (in order) and the way the loop ends. -/
 theorem C13_walk_spec (px : Bytes → PRes) (dx : Instr → Option Why) (fileOK : LocalSpec.SInstr → Nat)
-    (hfile : ∀ i, fileOK (specOfInstr i) = match dx i with | some y => y.code | none => 0)
-    (hnz : ∀ i y, dx i = some y → y.code ≠ 0) (lines : List Bytes) (fo : Bool) :
+    (hfile : ∀ i, isFile i = true → fileOK (specOfInstr i) = match dx i with | some y => y.code | none => 0)
+    (hnz : ∀ i y, isFile i = true → dx i = some y → y.code ≠ 0) (lines : List Bytes) (fo : Bool) :
     let W := LocalSpec.walk true fo (fun c => toRan (px c)) fileOK lines
     let t := dispatch px dx true fo lines
     W.shown.reverse = t.did.map specOfInstr ∧ W.effects.reverse = t.did.filterMap effOf ∧
@@ -252,6 +365,54 @@ theorem C13_forward_last (a : Args) (w : World) (cmds : Bytes) (fo : Bool) (r : 
        then [Effect.queue (r.ueo.getD []) (((dtrace a w cmds fo).did.filterMap fwdAddr).map cstr)] else []) :=
   deliver_effects a w cmds fo r
 
+/-- **Forwarding only after success.** If a forwarded copy is among the effects of following a control file, the agent
+was delivering and *every* instruction it acted upon succeeded (`Succeeded`: commands exited with a continue / stop
+code, file deliveries reported no failure). Together with `C13_forward_last` (which is an equation: the copy is made
+whenever the loop did not fail and addresses were collected) this is clause "forwards only after all other instructions
+succeeded". -/
+theorem C13_forward_only_after_success (a : Args) (w : World) (cmds : Bytes) (fo : Bool) (r : Result) (sd : Bytes)
+    (rs : List Bytes) (hq : Effect.queue sd rs ∈ (deliver a w cmds fo r).effects) :
+    a.doit = true ∧ (dtrace a w cmds fo).fin.isDie = false ∧ ∀ i ∈ (dtrace a w cmds fo).did, Succeeded w.px w.dx i := by
+  rw [C13_forward_last] at hq
+  rcases List.mem_append.1 hq with hq | hq
+  · split at hq
+    · simp at hq
+    · simp at hq
+  · split at hq
+    · rename_i hc
+      obtain ⟨hd, hf, _⟩ := hc
+      refine ⟨hd, hf, ?_⟩
+      intro i hi
+      unfold dtrace at hi hf
+      simp only [hd, if_true] at hi hf
+      exact dispatch_all_ok w.px w.dx _ _ _ hf i hi
+    · simp at hq
+
+/-- **The exit code of following a control file, in all cases.** A failed loop: the code of its diagnostic. Otherwise, if
+a copy is forwarded: qmail-queue's verdict — accepted ⇒ the code the loop started with (0 by `C13_found` /
+`C13_nofile_default` / `C13_run_cases`: `Fresh`), answer beginning with `D` ⇒ 100, any other answer ⇒ 111 (constants
+regenerated from `mailforward`). Otherwise (nothing to forward, or `-n`): the starting code, i.e. 0 — also when a
+command stopped the file with exit code 99. -/
+theorem C13_exit_code (a : Args) (w : World) (cmds : Bytes) (fo : Bool) (r : Result) :
+    (deliver a w cmds fo r).code =
+      (match (dtrace a w cmds fo).fin with
+       | .die y => y.code
+       | _ =>
+         if a.doit = true ∧ (dtrace a w cmds fo).did.filterMap fwdAddr ≠ [] then
+           (match w.qq with
+            | [] => r.code
+            | c :: _ => if c = 68 then 100 else 111)
+         else r.code) := by
+  rw [deliver_code, fwdCodes.1, fwdCodes.2]
+  rfl
+
+/-- a failing diagnostic of the loop never has exit code 0 (file deliveries: by hypothesis on the oracle), so "exit 0"
+means the loop did not fail -/
+theorem C13_failure_nonzero (px : Bytes → PRes) (dx : Instr → Option Why)
+    (hnz : ∀ i y, isFile i = true → dx i = some y → y.code ≠ 0) (lines : List Bytes) (first fo : Bool) (y : Why)
+    (h : (dispatch px dx first fo lines).fin = .die y) : y.code ≠ 0 :=
+  dispatch_die_code px dx hnz lines first fo y h
+
 /-- a failed loop gives the exit code of its diagnostic -/
 theorem C13_failure_code (a : Args) (w : World) (cmds : Bytes) (fo : Bool) (r : Result) (y : Why)
     (h : (dtrace a w cmds fo).fin = .die y) : (deliver a w cmds fo r).code = y.code ∧ (deliver a w cmds fo r).why = some y :=
@@ -261,10 +422,35 @@ theorem C13_failure_code (a : Args) (w : World) (cmds : Bytes) (fo : Bool) (r : 
 or is the instruction loop on the default instructions or on the selected non-empty control file -/
 theorem C13_run_cases (a : Args) (w : World) :
     (∃ code, code ≠ 0 ∧ Refused (run a w) code) ∨
-    (∃ r0, run a w = deliver a w a.aliasempty false r0) ∨
+    (∃ r0, Fresh r0 ∧ run a w = deliver a w a.aliasempty false r0) ∨
     (∃ c mode content r0, qmeSelect w.fs (qmeCandidates a.dash (safeext a.ext)) = .found c mode content ∧ content ≠ [] ∧
-        run a w = deliver a w content (mode &&& xBit ≠ 0) r0) :=
-  run_cases a w
+        Fresh r0 ∧ run a w = deliver a w content (mode &&& xBit ≠ 0) r0) :=
+  run_cases' a w
+
+/-! ### One whole delivery = the documented outcome -/
+
+/-- **`deliver` = `LocalSpec.follow`, finalisation included.** Following an instruction text gives exactly the documented
+exit code, the documented effects in order (the forwarded copy last, with the documented sender), the documented list
+of instructions acted upon and their counts; with `-n` the output is exactly the documented description, when
+delivering successfully it begins with the documented counts line. (Closes the gap "the last lines of `follow` are
+checked by the oracle only".) -/
+theorem C13_follow_spec (a : Args) (w : World) (cmds : Bytes) (fo : Bool) (r : Result)
+    (hnz : ∀ i y, isFile i = true → w.dx i = some y → y.code ≠ 0) (hr : r.code = 0) :
+    Matches a.doit (deliver a w cmds fo r)
+      (LocalSpec.follow a.doit fo cmds (r.ueo.getD []) (fun c => toRan (w.px c)) (fileCode w.dx) (LocalSpec.queueVerdict w.qq)) :=
+  matches_deliver a w cmds fo r hnz hr
+
+/-- **`run` = `LocalSpec.outcome`.** For every invocation and every state of the world (home directory mode `hm`, any
+directory contents, any behaviour of commands, file deliveries and qmail-queue) the model of `main()` produces
+exactly the documented outcome of `LocalSpec.outcome` — the function the driver evaluates on the implementation's
+behaviour as the oracle: refusals (home / control file permissions, loop, no such address, owner file not examinable)
+with their exit codes and with nothing delivered or printed, else the documented following of the selected text.
+`Matches`: exit code, effects in order, instructions acted upon, counts, and the printed text.
+Excluded: `stat(".")` failing (`w.home = none`, outside the documentation; the model gives 111, `C13_run_cases`). -/
+theorem C13_run_outcome (a : Args) (w : World) (hm : Nat) (hh : w.home = some hm)
+    (hnz : ∀ i y, isFile i = true → w.dx i = some y → y.code ≠ 0) :
+    Matches a.doit (run a w) (LocalSpec.outcome (settingOf a w hm)) :=
+  run_outcome a w hm hh hnz
 
 /-! ### Reading a line; the envelope sender of forwarded copies -/
 
@@ -274,12 +460,14 @@ mbox — maildir iff the line ends in `/` —, `+list`; for every byte string. -
 theorem C13_line_spec (raw : Bytes) : specOfLine (classify raw) = LocalSpec.readLine raw := classify_eq_spec raw
 
 /-- **-owner / VERP.** Bounces keep their sender; otherwise `local-owner@host` if `.qmail…-owner` exists,
-`local-owner-@host-@[]` if `…-owner-default` exists as well, else the original sender — as documented. -/
+`local-owner-@host-@[]` if `…-owner-default` exists as well, else the original sender — as documented. The
+`-owner-default` name is only consulted when `-owner` exists (earlier version: its `stat` result was demanded
+unconditionally). -/
 theorem C13_owner (loc dash sx host sender : Bytes) (ex : Bytes → Option Bool) (o1 o2 : Bool)
     (h1 : ex (dotQmail ++ dash ++ sx ++ ownerB) = some o1)
-    (h2 : ex (dotQmail ++ dash ++ sx ++ ownerDefaultB) = some o2) :
-    ueoOf loc dash sx host sender ex = .ok (LocalSpec.forwardSender loc host sender o1 o2) :=
-  ueoOf_eq_spec loc dash sx host sender ex o1 o2 h1 h2
+    (h2 : o1 = true → ex (dotQmail ++ dash ++ sx ++ ownerDefaultB) = some o2) :
+    ueoOf loc dash sx host sender ex = .ok (LocalSpec.forwardSender loc host sender o1 (o1 && o2)) :=
+  ueoOf_eq_spec' loc dash sx host sender ex o1 o2 h1 h2
 
 /-! ### Program exit codes -/
 
@@ -314,6 +502,12 @@ theorem C13_loop (a : Args) (w : World) (hh : HomeOK a w) (hd : a.doit = true)
   rw [← bouncexf_eq_spec] at hl
   simp only [run, hh]; simp [hd, hl]
 
+/-- **…and only then.** The looping diagnostic is given only when delivering a message whose header carries this
+recipient's Delivered-To line (`DxSane`: the file-delivery oracle reports file-delivery diagnostics). -/
+theorem C13_loop_only (a : Args) (w : World) (hdx : DxSane w.dx) (h : (run a w).why = some .looping) :
+    a.doit = true ∧ LocalSpec.loops a.loc a.host a.msg = true :=
+  run_looping_only a w hdx h
+
 /-! ### Header injection -/
 
 /-- **No injection.** Whatever bytes the envelope addresses contain (newlines, quotes, blanks), the Delivered-To
@@ -321,6 +515,9 @@ and Return-Path fields are exactly one line each. -/
 theorem C13_noinject (loc host sender : Bytes) :
     LocalSpec.oneLine (dtline loc host) = true ∧ LocalSpec.oneLine (rpline sender) = true :=
   ⟨dtline_oneLine loc host, rpline_oneLine sender⟩
+
+/-- the `From ` line of mbox deliveries (`UFLINE`, up to the date): no newline whatever the sender contains -/
+theorem C13_ufline (sender : Bytes) : LF ∉ uflinePrefix sender := uflinePrefix_noLF sender
 
 /-- the line used for loop detection is the documented one -/
 theorem C13_dtline (loc host : Bytes) : dtline loc host = LocalSpec.dtline loc host := dtline_eq_spec loc host
@@ -342,6 +539,14 @@ example : dispatch (fun _ => .exited 99) (fun _ => none) true false
 /-- "+list" then "./mb": refused -/
 example : dispatch (fun _ => .exited 0) (fun _ => none) true false [[43, 108, 105, 115, 116], [46, 47, 109, 98]] =
     ⟨[], .die .xbitFile⟩ := by decide
+
+/-- "./mb", "+list", "|x", "&a": the program line after a mid-file `+list` is refused, the mbox before it was delivered -/
+example : dispatch (fun _ => .exited 0) (fun _ => none) true false
+    [[46, 47, 109, 98], [43, 108, 105, 115, 116], [124, 120], [38, 97]] = ⟨[.mbox [46, 47, 109, 98]], .die .xbitProg⟩ := by decide
+
+/-- "|a", "|b", "|c" with `a` exiting 1: only `a` is acted upon (the trace [a, b, c] is impossible: `C13_dispatch_failure`) -/
+example : dispatch (fun c => if c = [97] then .exited 1 else .exited 0) (fun _ => none) true false
+    [[124, 97], [124, 98], [124, 99]] = ⟨[.program [97]], .die (.progExit 111)⟩ := by decide
 
 /-- a header carrying "Delivered-To: a@h" loops for recipient a@h; the same line in the body does not -/
 example : LocalSpec.loops [97] [104] ([88, 58, 10] ++ LocalSpec.dtline [97] [104] ++ [10, 98, 10]) = true := by decide
